@@ -5,6 +5,12 @@ import json
 BASELINE = "cd /repo && go test -mod=mod -json -vet=off -count=1 -timeout 25m ./..."
 
 CHECKS = {
+ "C13": dict(
+  engine="E6 product-state closure + E3",
+  technique="explicit-state BFS to a fixpoint over (implementation private state x reference automaton) product states; exhaustive bounded op-sequence enumeration",
+  text="The escape state machines are explored to closure: every reachable pair (EBSPWriter/EBSPReader private state, reference escaper/unescaper state) is visited and on every transition (all widths 1..8, all values / all 256 next bytes) emitted bytes, returned bits and position counters equal the reference; a closed graph with matching transition outputs is a bisimulation, so writer~escaper and reader~unescaper for streams of any length. Value coders (fixed width 1..32, flags, ue/se Exp-Golomb, SEI ff-coding) are enumerated exhaustively over boundary alphabets up to depth 2 (quick) / 3 (thorough) x 8 misalignments.",
+  note="Trusted: the reflected private fields are the whole state (asserted from the struct field list at start-up); reference escaper is itself checked against the standard's three clauses on all strings over {00..04} up to length 8/10. Values outside the boundary alphabets and op sequences longer than the bound are not explored for the value coders.",
+  design="3 C13"),
  "C18": dict(
   engine="E3 product enumerator",
   technique="exhaustive enumeration of the complete finite domain, real encode/decode on every tuple",
